@@ -220,37 +220,93 @@ func gen(c *ex.Ctx) {
 		c.Fail("vaxis.go: sendQueries not found")
 		return
 	}
-	var calls []string
-	for _, st := range sq.Body.List {
-		var call *ast.CallExpr
-		switch s := st.(type) {
-		case *ast.AssignStmt:
-			if len(s.Rhs) == 1 {
-				call, _ = s.Rhs[0].(*ast.CallExpr)
+	// one entry per statement that writes, flushes or calls a start-up helper; statements under an
+	// `if` carry their guard ("if <cond>: <entry>"); anything else that could matter is listed too
+	// ("assign …", "call …", "defer …") and an unrecognised shape becomes "unknown: …" (the facts_*
+	// theorems then fail) - the extractor itself never stops
+	var stmtEntries func(stmts []ast.Stmt, guard string, strict bool) []string
+	stmtEntries = func(stmts []ast.Stmt, guard string, strict bool) []string {
+		var out []string
+		add := func(e string) {
+			if guard != "" {
+				e = "if " + guard + ": " + e
 			}
-		case *ast.ExprStmt:
-			call, _ = s.X.(*ast.CallExpr)
+			out = append(out, e)
 		}
-		if call == nil {
-			continue
-		}
-		src := c.Src(call.Fun)
-		switch {
-		case src == "vx.tw.WriteString" && len(call.Args) == 1:
-			calls = append(calls, "write "+c.Src(call.Args[0]))
-		case src == "fmt.Fprintf" && len(call.Args) >= 2 && c.Src(call.Args[0]) == "vx.tw":
-			var as []string
-			for _, x := range call.Args[1:] {
-				as = append(as, c.Src(x))
+		for _, st := range stmts {
+			var call *ast.CallExpr
+			switch s := st.(type) {
+			case *ast.AssignStmt:
+				if len(s.Rhs) == 1 {
+					call, _ = s.Rhs[0].(*ast.CallExpr)
+				}
+				if call == nil {
+					if strict {
+						add("assign " + c.Src(st))
+					}
+					continue
+				}
+			case *ast.ExprStmt:
+				call, _ = s.X.(*ast.CallExpr)
+			case *ast.DeferStmt:
+				add("defer " + c.Src(s.Call.Fun))
+				continue
+			case *ast.IfStmt:
+				if strict {
+					if s.Init != nil || s.Else != nil || guard != "" {
+						add("unknown: " + c.Src(s.Cond))
+						continue
+					}
+					out = append(out, stmtEntries(s.Body.List, c.Src(s.Cond), strict)...)
+				}
+				continue
+			default:
+				if strict {
+					add("unknown: " + c.Src(st))
+				}
+				continue
 			}
-			calls = append(calls, "printf "+strings.Join(as, ", "))
-		case src == "vx.tw.Flush":
-			calls = append(calls, "flush")
-		case src == "vx.CursorPosition":
-			calls = append(calls, "cursorPosition")
-		case src == "vx.enterAltScreen":
-			calls = append(calls, "enterAltScreen")
+			if call == nil {
+				continue
+			}
+			src := c.Src(call.Fun)
+			switch {
+			case src == "vx.tw.WriteString" && len(call.Args) == 1:
+				add("write " + c.Src(call.Args[0]))
+			case src == "fmt.Fprintf" && len(call.Args) >= 2 && c.Src(call.Args[0]) == "vx.tw":
+				var as []string
+				for _, x := range call.Args[1:] {
+					as = append(as, c.Src(x))
+				}
+				add("printf " + strings.Join(as, ", "))
+			case src == "vx.tw.Flush":
+				add("flush")
+			case src == "vx.CursorPosition":
+				add("cursorPosition")
+			case src == "vx.enterAltScreen":
+				add("enterAltScreen")
+			default:
+				if strict {
+					add("call " + src)
+				}
+			}
 		}
+		return out
+	}
+	calls := stmtEntries(sq.Body.List, "", false)
+	for _, fn := range []string{"enterAltScreen", "exitAltScreen", "enableModes"} {
+		f := ex.FindFunc(vx, "Vaxis", fn)
+		var ents []string
+		if f == nil || f.Body == nil {
+			ents = []string{"unknown: function not found"}
+		} else {
+			ents = stmtEntries(f.Body.List, "", true)
+		}
+		var p []string
+		for _, e := range ents {
+			p = append(p, ex.LeanStr(e))
+		}
+		fmt.Fprintf(&sb, "/-- %s(): every statement, in source order (guards as \"if <cond>: …\") -/\ndef %s : List String := [\n  %s]\n", fn, fn, strings.Join(p, ",\n  "))
 	}
 	fmt.Fprintf(&sb, "/-- sendQueries(): what is written, in source order -/\ndef sendQueries : List String := [\n  %s]\n", strings.Join(func() []string {
 		var p []string
